@@ -133,6 +133,20 @@ Theorem C18_delete_then_record : forall e o clk s0, let log := rev (lg (snd (cle
 Proof. exact clean_delete_then_record. Qed.
 Print Assumptions C18_delete_then_record.
 
+(** records when it ran AND does nothing if recorded recently, across two cleanings (two cleaners, or the
+    same one twice; own options, fault plans and clocks): if the first returned nil after doing work,
+    a second one whose interval is positive and longer than the distance between any of its readings
+    of the clock and any reading of the first does no work and leaves the storage as the first left it *)
+Theorem C18_recorded_run_makes_next_skip : forall e1 o1 clk1 e2 o2 clk2 s0,
+  fst (clean e1 o1 clk1 s0) = RNil ->
+  has_kind does_work (rev (lg (snd (clean e1 o1 clk1 s0)))) = true ->
+  0 < interval o2 -> (forall i j, clk2 i - clk1 j < interval o2) ->
+  let s1 := sto (snd (clean e1 o1 clk1 s0)) in
+  sto (snd (clean e2 o2 clk2 s1)) = s1 /\
+  has_kind does_work (rev (lg (snd (clean e2 o2 clk2 s1)))) = false.
+Proof. exact recorded_then_skip. Qed.
+Print Assumptions C18_recorded_run_makes_next_skip.
+
 (** ** runs under a cluster-wide lock *)
 (** every storage call of a cleaning lies between taking and releasing the storage_clean lock;
     on every path (skip, abort, faults) the lock that was taken is released last *)
@@ -405,6 +419,13 @@ Example ex_trace_hyps :
   locker_ok None ex_trace = true /\ under_lock None ex_trace = true /\
   proj 0 ex_trace = thread_log [(Run ex_env ex_opts (at_ T), ex_store2)] /\ (List.length ex_trace > 20)%nat.
 Proof. vm_compute. repeat split; try reflexivity. repeat constructor. Qed.
+
+(** hypotheses of C18_recorded_run_makes_next_skip for these two cleanings *)
+Example ex_recorded_hyps :
+  fst (clean ex_env ex_opts (at_ T) ex_store2) = RNil /\
+  has_kind does_work (rev (lg (snd (clean ex_env ex_opts (at_ T) ex_store2)))) = true /\
+  0 < interval ex_opts /\ (forall i j : nat, at_ (T + 1) i - at_ T j < interval ex_opts).
+Proof. repeat split; try (vm_compute; reflexivity). Qed.
 
 (** the second of them skips (recorded by the first) *)
 Example ex_second_skips :
